@@ -365,7 +365,12 @@ pub fn run_check(chk: &dyn Check, tier: Tier, seed: u64, budget: f64, max_s: f64
     // workload thinned out: random phases through the budget, enumerated phases through this stride.
     // Their coverage floors are not judged (the primary run's are).
     let stride: u64 = std::env::var("VERIF_SECONDARY_STRIDE").ok().and_then(|s| s.parse().ok()).filter(|k| *k >= 1).unwrap_or(1);
+    // debugging aid: VERIF_ONLY_PHASE=k runs a single phase (the coverage floors then usually fail)
+    let only_phase: Option<usize> = std::env::var("VERIF_ONLY_PHASE").ok().and_then(|s| s.parse().ok());
     for (pi, ph) in phases.iter().enumerate() {
+        if only_phase.map(|k| k != pi).unwrap_or(false) {
+            continue;
+        }
         let step = if ph.exhaustive { stride } else { 1 };
         let ran = std::sync::atomic::AtomicU64::new(0);
         let stop = std::sync::atomic::AtomicBool::new(false);
